@@ -97,3 +97,18 @@ Theorem C01_source_tie_tax_engine_wiring :
   forall ar sched t, fractions_of_gen ar sched t = fractions_of ar sched t.
 Proof. exact fractions_of_gen_agrees. Qed.
 Print Assumptions C01_source_tie_tax_engine_wiring.
+
+(** SOURCE TIE (lot order keys).  The two keys that decide which lot a disposal takes are re-read from the source on every run
+    as data (Model/GeneratedTie.v, fragment avl_key; interpreter Model/AvlKeyGen.v): the heap key of the feature-based methods -
+    the field order of the NamedTuple `AcquiredLotSortKey` and the value each plugin's `sort_key` gives to each field, positional
+    or by keyword - is the triple [meth_sort_key] the matcher model pops by; and the AVL lookup of
+    `get_acquired_lot_for_taxable_event` (key = UTC time as `%Y%m%d%H%M%S.%f`, `_`, id zero-filled in front to 12; greatest key
+    <= the max-disambiguator key of the event) is [Matcher.to_index]: the position of the lot with the greatest (instant, row)
+    among the lots acquired at or before the event, for rows of at most 12 digits.  Regrouping the fields of the key tuple,
+    formatting the wall-clock time, dropping `%f` or padding behind the id stops compiling here (Proofs/AvlKeyGenProofs.v). *)
+From RP2V Require Import Model.GeneratedTie Model.AvlKeyGen Proofs.AvlKeyGenProofs.
+Theorem C01_source_tie_lot_order_keys :
+  (forall m l, meth_kind m = Feature -> sk_key_gen m l = Some (meth_sort_key m l)) /\
+  (forall lots te, Forall (fun x => 0 <= i_row x <= ak_max_num) lots -> to_index_gen lots te = Some (to_index lots (utc_us te))).
+Proof. exact lot_order_keys_gen_agree. Qed.
+Print Assumptions C01_source_tie_lot_order_keys.
